@@ -51,6 +51,7 @@ type sseClientTransport struct {
 	closed       atomic.Bool   // Flag indicating if transport is closed.
 	retryConfig  *retry.Config // Retry configuration for requests.
 	endpointChan chan struct{} // Channel to signal when endpoint is received.
+	endpointOnce sync.Once     // The endpoint is published (and endpointChan closed) once.
 	logger       Logger        // Logger for this client transport.
 
 	// Fields for HTTP request handler configuration
@@ -290,8 +291,12 @@ func (t *sseClientTransport) handleEndpointEvent(endpointURL string) {
 		parsedURL = t.baseURL.ResolveReference(parsedURL)
 	}
 
-	t.endpoint = parsedURL
-	close(t.endpointChan) // Signal that the endpoint has been received.
+	// Only the first endpoint event publishes the endpoint: a repeated event must not close the
+	// channel again (that would panic the reader goroutine).
+	t.endpointOnce.Do(func() {
+		t.endpoint = parsedURL
+		close(t.endpointChan) // Signal that the endpoint has been received.
+	})
 }
 
 // handleMessageEvent processes message events from the server.
